@@ -2,7 +2,7 @@
   Layer A, part 1: the regenerated sequence arithmetic of tcpassembly (Gp.Gen.SeqAsm) is correct
   across the 2^32 wrap for every pair of sequence numbers less than 2^30 apart.
 -/
-import Gp.Model.Asm
+import Gp.Model.AsmSpec
 
 namespace Gp.Asm
 open Gp.Gen
@@ -37,5 +37,17 @@ theorem wrap_add_valid (s n : Int) : wrapArith.add s n ≠ invalidSeq := by
 theorem wrap_diff_self (x : Int) : wrapArith.diff x x ≤ 0 := by
   show SeqAsm.difference x x ≤ 0
   rw [difference_self]; exact Int.le_refl 0
+
+theorem wf_seq_ne (ops : List Op) (hwf : ∀ op ∈ ops, WfOp op) :
+    ∀ op ∈ ops, (match op with | .seg s => s.seq ≠ invalidSeq | _ => True) := by
+  intro op hop
+  have := hwf op hop
+  cases op with
+  | seg s =>
+    simp only [WfOp] at this
+    show s.seq ≠ SeqAsm.invalidSequence
+    unfold SeqAsm.invalidSequence
+    omega
+  | _ => trivial
 
 end Gp.Asm
